@@ -713,21 +713,30 @@ mod expression_parser {
 
   fn parse_match(parser: &mut super::SourceParser) -> expr::E<()> {
     if let Token(peeked_loc, TokenContent::Keyword(Keyword::Match)) = parser.peek() {
-      let mut associated_comments = parser.consume();
+      let associated_comments = parser.consume();
       let match_expression = parse_expression(parser);
-      associated_comments.append(&mut parser.assert_and_consume_operator(TokenOp::LeftBrace).1);
-      let mut matching_list = vec![parse_pattern_to_expression(parser)];
+      // The comments before `{` and `}` stay inside the match: in front of the first pattern and
+      // after the last case.
+      let (_, body_start_comments) = parser.assert_and_consume_operator(TokenOp::LeftBrace);
+      let mut matching_list = vec![parse_pattern_to_expression(parser, body_start_comments)];
       while matches!(
         parser.peek().1,
         TokenContent::Operator(TokenOp::LeftBrace | TokenOp::LeftParenthesis | TokenOp::Underscore)
           | TokenContent::LowerId(_)
           | TokenContent::UpperId(_)
       ) {
-        matching_list.push(parse_pattern_to_expression(parser));
+        matching_list.push(parse_pattern_to_expression(parser, Vec::new()));
       }
       let loc = {
-        let (loc, mut comments) = parser.assert_and_consume_operator(TokenOp::RightBrace);
-        associated_comments.append(&mut comments);
+        let (loc, comments) = parser.assert_and_consume_operator(TokenOp::RightBrace);
+        if !comments.is_empty() {
+          let last_case = matching_list.last_mut().unwrap();
+          let mut all_comments: Vec<Comment> =
+            parser.comments_store.get(last_case.ending_associated_comments).iter().copied().collect();
+          all_comments.extend(comments);
+          last_case.ending_associated_comments =
+            parser.comments_store.create_comment_reference(all_comments);
+        }
         peeked_loc.union(&loc)
       };
       expr::E::Match(expr::Match {
@@ -746,8 +755,9 @@ mod expression_parser {
 
   fn parse_pattern_to_expression(
     parser: &mut super::SourceParser,
+    starting_comments: Vec<Comment>,
   ) -> expr::VariantPatternToExpression<()> {
-    let pattern = super::pattern_parser::parse_matching_pattern(parser, Vec::new());
+    let pattern = super::pattern_parser::parse_matching_pattern(parser, starting_comments);
     let (_, additional_comments) = parser.assert_and_consume_operator(TokenOp::Arrow);
     let expression =
       parse_expression_with_additional_preceding_comments(parser, additional_comments);
